@@ -348,7 +348,7 @@ func c01Cases(tier string) int {
 	if tier == "thorough" {
 		return n + 2000000
 	}
-	return n + 60000
+	return n + 120000
 }
 
 func c01Run_(c *Case) {
